@@ -33,7 +33,9 @@ theorem failOperand_in (c : Ctx) (arg : FailArg) : ResIn L (failOperand c arg) :
     apply resIn_bind' (errObjER_in (checkErrorObject_in _)); intro _
     exact resIn_pure _
   · exact resIn_ok _
-  · res_leaf
+  · apply resIn_bind' (resolveValue_in _ _); intro r
+    apply resIn_bind' (errObjER_in (checkErrorObject_in _)); intro _
+    exact resIn_pure _
   · dsimp only
     apply resIn_bind' (errObjER_in (checkErrorObject_in _)); intro _
     exact resIn_pure _
@@ -69,12 +71,14 @@ theorem applyToArg_in (c : Ctx) (arg : Value) : ResIn L (applyToArg c arg) := by
        · exact resIn_pure _
        · -- `tetraplets.remove(0)`: the resolver returns a tetraplet for these arguments
          exact absurd rfl (resolveValue_tetraplets _ _ _ _ _
-           (by first | exact .inl ⟨_, rfl⟩ | exact .inr (.inl ⟨_, rfl⟩) | exact .inr (.inr ⟨_, _, rfl⟩)) hr))
+           (by first | exact .inl ⟨_, rfl⟩ | exact .inr (.inl ⟨_, rfl⟩) | exact .inr (.inr (.inl ⟨_, _, rfl⟩))
+                     | exact .inr (.inr (.inr (.inl ⟨_, _, rfl⟩))) | exact .inr (.inr (.inr (.inr ⟨_, _, rfl⟩)))) hr))
     | (apply resIn_bind' (sc_getValue _ _); intro r
        split
        · exact resIn_pure _
        · apply resIn_bind' (it_peekExpect _); intro x; exact resIn_pure _)
     | (apply resIn_bind' (sc_getCanonStream _ _); intro cs; exact resIn_pure _)
+    | (apply resIn_bind' (sc_getCanonMap _ _); intro cm; exact resIn_pure _)
 
 theorem applyToArgStream_in (c : Ctx) (arg : Value) : ResIn L (applyToArgStream c arg) := by
   unfold applyToArgStream
@@ -110,13 +114,69 @@ theorem pin_execApStream (i : Instr) (arg : Value) (name : String) (pos : Nat) :
     apply pin_bind' (pin_modifyER fun c => addStreamValue_in _ _ _ _ _); intro _
     exact pin_modifyCtx _
 
-theorem pin_canonFinish (n : String) (cs : CanonStream) (cid : Cid) (reg : String) : PIn' L (canonFinish n cs cid reg) := by
+theorem resolveKeyIfNeeded_in (c : Ctx) (key : Value) (m : String) : ResIn L (resolveKeyIfNeeded c key m) := by
+  unfold resolveKeyIfNeeded
+  split <;> first
+    | res_leaf
+    | (apply resIn_bind' (resolveValue_in _ _); intro r; res_leafs)
+
+theorem addStreamMapValue_in (c : Ctx) (k : Lens.StreamMapKey) (v : ValueAggregate) (n : String) (g : Generation) (pos : Nat) :
+    ResIn L (c.addStreamMapValue k v n g pos) := by
+  unfold Ctx.addStreamMapValue; exact addStreamValue_in _ _ _ _ _
+
+theorem pin_execApMap (i : Instr) (key val : Value) (name : String) (pos : Nat) : PIn' L (execApMap i key val name pos) := by
+  unfold execApMap
+  apply pin_bind' (pin_joinable (pin_readER fun c => applyToArgStream_in c val)); intro r
+  split
+  · exact pin_pure _ trivial
+  · apply pin_bind' (pin_liftTH i fun th => meetApStart_in th); intro met
+    apply pin_bind' (pin_joinable (pin_readER fun c => resolveKeyIfNeeded_in c key name)); intro k
+    split
+    · exact pin_pure _ trivial
+    · apply pin_bind' (pin_modifyER fun c => addStreamMapValue_in _ _ _ _ _ _); intro _
+      exact pin_modifyCtx _
+
+theorem getValueFromObjAgg_in (kv : ValueAggregate) : ResIn L (getValueFromObjAgg kv) := by
+  unfold getValueFromObjAgg
+  apply resIn_rbind _ fun _ => resIn_ok _
+  unfold Lens.getValueFromObj; res_leafs
+
+theorem fromCanonStreamLoopAgg_in (t : Tetraplet) : ∀ (vals : List ValueAggregate) (m : List (Lens.StreamMapKey × CanonStream)),
+    ResIn L (fromCanonStreamLoopAgg t m vals)
+  | [], m => by unfold fromCanonStreamLoopAgg; exact resIn_ok _
+  | kv :: rest, m => by
+    unfold fromCanonStreamLoopAgg
+    split
+    · res_leaf
+    · split
+      · exact fromCanonStreamLoopAgg_in t rest _
+      · exact resIn_error _
+      · rename_i s h; exact resIn_of_panic_eq (getValueFromObjAgg_in _) h
+
+theorem fromCanonStreamAgg_in (cs : CanonStream) : ResIn L (CanonStreamMapAgg.fromCanonStream cs) := by
+  unfold CanonStreamMapAgg.fromCanonStream
+  split
+  · exact resIn_ok _
+  · exact resIn_error _
+  · rename_i s h; exact resIn_of_panic_eq (fromCanonStreamLoopAgg_in _ _ _) h
+
+theorem canonBind_in (target : CanonTarget) (cs : CanonStream) (cid : Cid) (c : Ctx) : ResIn L (canonBind target cs cid c) := by
+  unfold canonBind
+  split
+  · exact sc_setCanonValue _ _ _
+  · apply resIn_bind' (fromCanonStreamAgg_in _); intro m
+    exact sc_setCanonMapValue _ _ _
+  · split
+    · res_leaf
+    · exact sc_setScalarValue _ _ _
+
+theorem pin_canonFinish (n : CanonTarget) (cs : CanonStream) (cid : Cid) (reg : String) : PIn' L (canonFinish n cs cid reg) := by
   unfold canonFinish
   apply pin_modifyER; intro c
-  apply resIn_bind' (sc_setCanonValue _ _ _); intro sc
+  apply resIn_bind' (canonBind_in _ _ _ _); intro sc
   exact resIn_pure _
 
-theorem pin_createCanonFirstTime (env : Env) [RawOk env L] (n st : String) (pos : Nat) (peer : String) : PIn' L (createCanonFirstTime env n st pos peer) := by
+theorem pin_createCanonFirstTime (env : Env) [RawOk env L] (n : CanonTarget) (st : String) (pos : Nat) (peer : String) : PIn' L (createCanonFirstTime env n st pos peer) := by
   unfold createCanonFirstTime
   apply pin_bind' (pin_stateER fun c => by dsimp only; exact resIn_ok _); intro r
   exact pin_canonFinish _ _ _ _
@@ -134,12 +194,12 @@ theorem canonRead_in (env : Env) [RawOk env L] (peer : Value) (cid : Cid) (c : C
     apply resIn_bind' (resIn_mapM_L (getCanonValueByCid_in env c.cid) _); intro values
     exact resIn_pure _
 
-theorem pin_canonExecuted (env : Env) [RawOk env L] (n : String) (peer : Value) (cid : Cid) : PIn' L (canonExecuted env n peer cid) := by
+theorem pin_canonExecuted (env : Env) [RawOk env L] (n : CanonTarget) (peer : Value) (cid : Cid) : PIn' L (canonExecuted env n peer cid) := by
   unfold canonExecuted
   apply pin_bind' (pin_readER fun c => canonRead_in env peer cid c)
   intro cs; exact pin_canonFinish _ _ _ _
 
-theorem pin_execCanon (env : Env) [RawOk env L] (i : Instr) (peer : Value) (st : String) (pos : Nat) (n : String) : PIn' L (execCanon env i peer st pos n) := by
+theorem pin_execCanon (env : Env) [RawOk env L] (i : Instr) (peer : Value) (st : String) (pos : Nat) (n : CanonTarget) : PIn' L (execCanon env i peer st pos n) := by
   unfold execCanon
   apply pin_bind' (pin_liftTH i fun th => meetCanonStart_in th); intro met
   split
@@ -184,6 +244,15 @@ theorem createScalarIterable_in (c : Ctx) (it : Value) : ResIn L (createScalarIt
   · exact resIn_ok _
   · apply resIn_bind' (sc_getCanonStream _ _); intro cs
     res_leafs
+  · apply resIn_bind' (sc_getCanonMap _ _); intro cm
+    res_leafs
+  · apply resIn_bind' (sc_getCanonMap _ _); intro cm
+    split
+    · exact resIn_pure _
+    · apply resIn_bind'
+      · apply lensOfLambda_in; intro lam hlam
+        exact lens_selectByLambdaFromCanonMap_in _ _ _ lam hlam
+      · intro sel; res_leafs
   · res_leaf
 
 theorem foldEnter_in (it : String) (fs : FoldState) (c : Ctx) : ResIn L (foldEnter it fs c) := by
@@ -215,6 +284,11 @@ theorem newLeave_in (n : String) (c : Ctx) : ResIn L (newLeave n c) := by
 
 theorem newLeaveCanon_in (n : String) (c : Ctx) : ResIn L (newLeaveCanon n c) := by
   unfold newLeaveCanon
+  apply withScalarsRet_in
+  exact resIn_ok _
+
+theorem newLeaveCanonMap_in (n : String) (c : Ctx) : ResIn L (newLeaveCanonMap n c) := by
+  unfold newLeaveCanonMap
   apply withScalarsRet_in
   exact resIn_ok _
 
@@ -367,6 +441,14 @@ theorem arm_new (arg : NewArg) (body : Instr) (a b : Nat) : PIn' L (execInner en
     · exact pin_pure _ trivial
     · exact pin_reraise hep
     · exact pin_reraise hres
+  · -- stream map (same store)
+    apply pin_bind' (pin_modifyCtx _); intro _
+    apply pin_bind (pin_tryM (ih body)); intro res hres
+    apply pin_bind (pin_tryM (pin_modifyER fun c => streamScopeEnd_in c _)); intro ep hep
+    split
+    · exact pin_pure _ trivial
+    · exact pin_reraise hep
+    · exact pin_reraise hres
   · -- canon
     apply pin_bind' (pin_modifyCtx _); intro _
     apply pin_bind (pin_tryM (ih body)); intro res hres
@@ -376,7 +458,15 @@ theorem arm_new (arg : NewArg) (body : Instr) (a b : Nat) : PIn' L (execInner en
       · exact pin_pure _ trivial
       · exact pin_bind' (pin_readCtx _) fun _ => pin_throwE _
     · exact pin_reraise hres
-  · exact pin_throwE _
+  · -- canon map
+    apply pin_bind' (pin_modifyCtx _); intro _
+    apply pin_bind (pin_tryM (ih body)); intro res hres
+    apply pin_bind' (pin_stateER fun c => newLeaveCanonMap_in _ c); intro ok
+    split
+    · split
+      · exact pin_pure _ trivial
+      · exact pin_bind' (pin_readCtx _) fun _ => pin_throwE _
+    · exact pin_reraise hres
 
 theorem pin_execFoldIterations (i : Instr) (iterator : String) (body : Instr) (last : Option Instr) (foldId : Nat) :
     ∀ (its : List (List ValueAggregate)) (acc : Bool), PIn' L (execFoldIterations env fuel i iterator body last foldId its acc)
@@ -422,9 +512,36 @@ theorem arm_foldStream (stream : String) (streamPos : Nat) (iterator : String) (
     apply pin_bind' (pin_modifyCtx _); intro _
     exact pin_liftTH' _ fun th => meetFoldEnd_in th _
 
+theorem arm_foldMap (stream : String) (streamPos : Nat) (iterator : String) (body : Instr) (last : Option Instr) (sl : Nat) :
+    PIn' L (execInner env fuel (.foldMap stream streamPos iterator body last sl)) := by
+  unfold execInner
+  apply pin_bind' (pin_readCtx _); intro ex
+  split
+  · exact pin_makeSubgraphIncomplete
+  · apply pin_bind' (pin_stateER fun c => resIn_ok _); intro foldId
+    apply pin_bind' (pin_liftTH' _ fun th => meetFoldStart_in (by site) th _); intro _
+    apply pin_bind' (pin_foldStreamGet _ _); intro s
+    dsimp only
+    apply pin_bind' (pin_modifyCtx _); intro _
+    apply pin_bind' (pin_execFoldStreamLoop env fuel ih _ _ _ _ _ _ _ _ _ _ _); intro complete
+    apply pin_bind' (pin_modifyCtx _); intro _
+    exact pin_liftTH' _ fun th => meetFoldEnd_in th _
+
 omit ih in
 theorem arm_canon (peer : Value) (st : String) (pos : Nat) (n : String) : PIn' L (execInner env fuel (.canon peer st pos n)) := by
   unfold execInner; exact pin_execCanon _ _ _ _ _ _
+
+omit ih in
+theorem arm_canonMap (peer : Value) (st : String) (pos : Nat) (n : String) : PIn' L (execInner env fuel (.canonMap peer st pos n)) := by
+  unfold execInner; exact pin_execCanon _ _ _ _ _ _
+
+omit ih in
+theorem arm_canonMapScalar (peer : Value) (st : String) (pos : Nat) (n : String) : PIn' L (execInner env fuel (.canonMapScalar peer st pos n)) := by
+  unfold execInner; exact pin_execCanon _ _ _ _ _ _
+
+omit ih in
+theorem arm_apMap (key val : Value) (name : String) (pos : Nat) : PIn' L (execInner env fuel (.apMap key val name pos)) := by
+  unfold execInner; exact pin_execApMap _ _ _ _ _
 
 omit ih in
 theorem arm_ap (arg : Value) (out : CallOutput) : PIn' L (execInner env fuel (.ap arg out)) := by
@@ -437,7 +554,7 @@ omit ih in
 theorem arm_fail (arg : FailArg) : PIn' L (execInner env fuel (.fail arg)) := by
   unfold execInner; exact pin_execFail _
 
-/-- the case split over the instruction arms (unmodelled instructions end in `throwE (.unmodelled ..)`) -/
+/-- the case split over the instruction arms (every instruction of the AST has an arm) -/
 theorem pin_execInner (i : Instr) : PIn' L (execInner env fuel i) := by
   cases i with
   | call p s f args out => unfold execInner; exact pin_pure _ trivial
@@ -455,11 +572,10 @@ theorem pin_execInner (i : Instr) : PIn' L (execInner env fuel i) := by
   | new arg body a b => exact arm_new env fuel ih arg body a b
   | canon peer st pos n => exact arm_canon env fuel peer st pos n
   | foldStream st pos it body last sl => exact arm_foldStream env fuel ih st pos it body last sl
-  -- outside the modelled fragment: `throwE (.unmodelled ..)`
-  | apMap _ _ _ _ => unfold execInner; exact pin_throwE _
-  | canonMap _ _ _ _ => unfold execInner; exact pin_throwE _
-  | canonMapScalar _ _ _ _ => unfold execInner; exact pin_throwE _
-  | foldMap _ _ _ _ _ _ => unfold execInner; exact pin_throwE _
+  | apMap key val name pos => exact arm_apMap env fuel key val name pos
+  | canonMap peer st pos n => exact arm_canonMap env fuel peer st pos n
+  | canonMapScalar peer st pos n => exact arm_canonMapScalar env fuel peer st pos n
+  | foldMap st pos it body last sl => exact arm_foldMap env fuel ih st pos it body last sl
 
 end arms
 
